@@ -8,6 +8,11 @@
    MC_UtfScalars.tla (every scalar value, boundary pairs/triples) and MC_UtfBytes.tla (every byte string over the
    boundary alphabet); Trace_Utf.tla validates recorded executions of the real code against the same operators.
 
+   Grown around it: UtfLax.tla (what the library's loops return on ANY bytes, transcribed, with termination and
+   bound laws), UtfCase.tla + UtfCaseData.tla (the case tables as data under laws; toUpperCase / toLowerCase /
+   equalsNocase as functions), UtfLocal.tla (fromLocal / toLocal with the C library as environment) and their
+   walkers MC_UtfCase / MC_UtfWide / MC_UtfLocal.
+
    Bytes and code units are naturals; text is a sequence of them.  A "C string" is the part of a byte sequence
    before its first 0 (the library's API is NUL-terminated).                                                    *)
 EXTENDS Naturals, Sequences
